@@ -65,9 +65,10 @@ void Arena::init(size_t bytes)
         pos = 0;
 }
 
-void Arena::run_begin(size_t skip_pages)
+void Arena::run_begin(size_t skip_pages, size_t sub)
 {
         run_end();
+        sub_off = sub % 64; // 0 in every ordinary run; the address twin shifts all buffers by a few bytes inside their pages
         pos = (skip_pages % 4096) * PG; // every run starts from the arena base plus a plan-chosen displacement
         run_start = pos;
 }
@@ -84,7 +85,9 @@ void Arena::run_end()
 
 Slot *Arena::alloc(size_t len, int placement, const char *label, uint64_t fill_seed, unsigned align)
 {
-        size_t pages = (len + PG - 1) / PG;
+        size_t pages = (len + sub_off + 63 + PG - 1) / PG;
+        if (sub_off == 0)
+                pages = (len + PG - 1) / PG;
         if (pages == 0)
                 pages = 1;
         if (pos - run_start + (pages + 3) * PG > RUN_BUDGET)
@@ -106,12 +109,16 @@ Slot *Arena::alloc(size_t len, int placement, const char *label, uint64_t fill_s
                 exit(2);
         }
         if (placement == PLACE_END) {
-                uintptr_t d = (uintptr_t) (s.map + pages * PG - len);
+                uintptr_t d = (uintptr_t) (s.map + pages * PG - len - sub_off);
                 if (align > 1)
                         d &= ~(uintptr_t) (align - 1);
                 s.data = (uint8_t *) d;
-        } else
-                s.data = s.map;
+        } else {
+                size_t so = sub_off;
+                if (align > 1)
+                        so = (so + align - 1) & ~(size_t) (align - 1);
+                s.data = s.map + so;
+        }
         memset(s.map, s.canary, pages * PG);
         fill_garbage(s.data, len, fill_seed);
         s.state = 1;
